@@ -5,7 +5,8 @@
 //! Case line:  sa <target addr hex> <fee a> <fee b> <coins_per_utxo_byte> <max_value_size> <max_tx_size> <n>
 //!             then per UTxO: <txid hex> <index> <owner kind> <pay key id> <stake key id> <addr hex> <coin> <multiasset>
 //!             multiasset = `~` (None) | <npolicies> { <policy hex> <nassets> { <name hex|-> <quantity> } }
-//! Result:     ok <k> { <tx hex> <signed tx hex> } | <hook H2 traces> | <bootstrap witness sizes> | <real figures>   or  err  or  panic
+//! Result:     ok <k> { <tx hex> <signed tx hex> } | <hook H2 traces> | <bootstrap witness sizes> | <real figures> | <canonical content>
+//!             or  err | <bootstrap witness sizes>   or  panic
 //! The signed transaction has the same body and a witness set with one real Ed25519 vkey witness per distinct
 //! payment key and one real Icarus bootstrap witness per distinct Byron address among the spent UTxOs (the keys
 //! are derived from the key ids in the case line).  Everything else (partition, balance, fee, sizes, min ADA)
@@ -165,9 +166,19 @@ fn exec(keys: &mut Keys, toks: &[String]) -> String {
     let _ = verif_hooks_c13::take_send_all_traces();
     let res = std::panic::catch_unwind(std::panic::AssertUnwindSafe(|| create_send_all(&target, &utxos, &cfg)));
     let traces = verif_hooks_c13::take_send_all_traces();
+    // sizes of the fake bootstrap witnesses of the Byron owners (what get_boostrap_witness_size measures), per UTxO
+    let mut bsizes = format!("{}", c.us.len());
+    let zero = TransactionHash::from_bytes(vec![0u8; 32]).unwrap();
+    for u in &c.us {
+        let sz = match Address::from_bytes(u.addr.clone()).ok().and_then(|a| ByronAddress::from_address(&a)) {
+            Some(b) => make_icarus_bootstrap_witness(&zero, &b, &keys.get(u.pay)).to_bytes().len(),
+            None => 0,
+        };
+        bsizes.push_str(&format!(" {}", sz));
+    }
     match res {
         Err(_) => "panic".into(),
-        Ok(Err(_)) => "err".into(),
+        Ok(Err(_)) => format!("err | {}", bsizes),
         Ok(Ok(batches)) => {
             let mut txs = Vec::new();
             for i in 0..batches.len() { let b = batches.get(i); for j in 0..b.len() { txs.push(b.get(j)); } }
@@ -179,16 +190,7 @@ fn exec(keys: &mut Keys, toks: &[String]) -> String {
             // hook H2: the primitive operations applied to every finished proposal, with the calculator's figures
             s.push_str(&format!(" | {}", traces.len()));
             for t in &traces { s.push_str(&format!(" {}", t.len())); for item in t { s.push_str(&format!(" {}", item)); } }
-            // sizes of the fake bootstrap witnesses of the Byron owners (what get_boostrap_witness_size measures), per UTxO
-            s.push_str(&format!(" | {}", c.us.len()));
-            let zero = TransactionHash::from_bytes(vec![0u8; 32]).unwrap();
-            for u in &c.us {
-                let sz = match Address::from_bytes(u.addr.clone()).ok().and_then(|a| ByronAddress::from_address(&a)) {
-                    Some(b) => make_icarus_bootstrap_witness(&zero, &b, &keys.get(u.pay)).to_bytes().len(),
-                    None => 0,
-                };
-                s.push_str(&format!(" {}", sz));
-            }
+            s.push_str(&format!(" | {}", bsizes));
             // the real figures of every returned transaction: size, fee, and per output coin : output size : value size
             s.push_str(" |");
             for tx in &txs {
@@ -196,6 +198,18 @@ fn exec(keys: &mut Keys, toks: &[String]) -> String {
                 let mut os = Vec::new();
                 for i in 0..outs.len() { let o = outs.get(i); os.push(format!("{}:{}:{}", o.amount().coin().to_str(), o.to_bytes().len(), o.amount().to_bytes().len())); }
                 s.push_str(&format!(" {},{},{}", tx.to_bytes().len(), tx.body().fee().to_str(), os.join(";")));
+            }
+            // canonical content of every transaction: sorted indices of the spent UTxOs, fee, output coins
+            // (predicted exactly by the model when no UTxO holds an asset: Batch/PureAda.v)
+            s.push_str(" |");
+            let index: HashMap<(Vec<u8>, u32), usize> = c.us.iter().enumerate().map(|(i, u)| ((u.txid.clone(), u.ix), i)).collect();
+            for tx in &txs {
+                let ins = tx.body().inputs();
+                let mut ix: Vec<usize> = (0..ins.len()).map(|i| { let inp = ins.get(i); *index.get(&(inp.transaction_id().to_bytes(), inp.index())).unwrap_or(&usize::MAX) }).collect();
+                ix.sort();
+                let outs = tx.body().outputs();
+                let coins: Vec<String> = (0..outs.len()).map(|i| outs.get(i).amount().coin().to_str()).collect();
+                s.push_str(&format!(" {},{},{}", ix.iter().map(|x| x.to_string()).collect::<Vec<String>>().join("+"), tx.body().fee().to_str(), coins.join(";")));
             }
             s
         }
